@@ -249,6 +249,8 @@ class Sched:
 
     def _transfer(self, nxt: Task, me: Task, park: bool = True) -> None:
         if nxt is me:
+            if me.state == BLOCKED and me.timed and not me.pred():
+                me.timed_out = True  # the scheduler let its own wait expire
             me.state = RUNNING
             return
         was_timed_wait = nxt.state == BLOCKED and nxt.timed and not nxt.pred() \
